@@ -35,10 +35,18 @@ Voc == <<
 
 File1(fnl) == File([i \in 1..Len(lines) |-> Voc[lines[i]]], fnl)
 
-Init == lines = <<>>
-Next == /\ Len(lines) < MaxLines
+\* files start empty or with the standard header already in place (so that
+\* formatting can also SHRINK a file that carries the header)
+IxOf(l) == CHOOSE i \in 1..Len(Voc) : Voc[i] = l
+HeaderPrefix == << IxOf(H1), IxOf(H2), IxOf(Blank) >>
+Headered == Len(lines) >= 3 /\ SubSeq(lines, 1, 3) = HeaderPrefix
+Init == lines \in { <<>>, HeaderPrefix }
+Next == /\ Len(lines) < (IF Headered THEN MaxLines + 2 ELSE MaxLines)
         /\ \E i \in 1..Len(Voc) : lines' = Append(lines, i)
 Spec == Init /\ [][Next]_vars
+
+\* the same file with CRLF line ends throughout
+AllCR(f) == [f EXCEPT !.lines = [i \in 1..Len(f.lines) |-> [f.lines[i] EXCEPT !.cr = TRUE]]]
 
 (***************************************************************************)
 (* Design theorems about Fmt, for every enumerated file.                   *)
@@ -51,7 +59,7 @@ Thm(f) == LET r == Fmt(f) IN
             /\ (CheckOK(r.file) \/ Lint(r.file))                    \* --check accepts what format wrote
             /\ (CheckOK(f) => Bytes(r.file) = Bytes(f))
 
-Theorems == Theorem => (Thm(File1(TRUE)) /\ Thm(File1(FALSE)))
+Theorems == Theorem => (Thm(File1(TRUE)) /\ Thm(File1(FALSE)) /\ Thm(AllCR(File1(TRUE))))
 
 Case(f) == LET r == Fmt(f) IN
            [raw   |-> Bytes(f),
@@ -63,5 +71,6 @@ Case(f) == LET r == Fmt(f) IN
 
 ExportCase == Export =>
     /\ PrintT(ToJson(Case(File1(TRUE))))
-    /\ (Len(lines) > 0 => PrintT(ToJson(Case(File1(FALSE)))))
+    /\ (Len(lines) > 0 => /\ PrintT(ToJson(Case(File1(FALSE))))
+                          /\ PrintT(ToJson(Case(AllCR(File1(TRUE))))))
 =============================================================================
